@@ -4,7 +4,12 @@ mod append_cmd;
 mod boxcar_cmd;
 mod nucleo_cmd;
 mod parsort_cmd;
+mod probe_cmd;
 mod sched;
+
+/// live bytes / allocations are counted for the leak probe (`hn leak`)
+#[global_allocator]
+static ALLOC: probe_cmd::Counting = probe_cmd::Counting;
 
 fn main() {
     let args: Vec<String> = std::env::args().collect();
@@ -15,8 +20,11 @@ fn main() {
         "parsort-adv" => parsort_cmd::adversary(args[2].parse().expect("N"), args.get(3).map(|s| s == "desc").unwrap_or(false)),
         "nucleo" => nucleo_cmd::run(&args[2]),
         "nucleo-table" => nucleo_cmd::table(),
+        "layout" => probe_cmd::layout(&args[2..]),
+        "layout-types" => println!("{}", probe_cmd::LAYOUT_TYPES.join(" ")),
+        "leak" => probe_cmd::leak(),
         _ => {
-            eprintln!("usage: hn boxcar FILE");
+            eprintln!("usage: hn boxcar FILE | layout TYPE [CASE] | leak | ...");
             std::process::exit(2)
         }
     }
